@@ -85,6 +85,11 @@ pub struct WStream {
     pub headers_t_w: [Option<u64>; 2],
     /// frames per side with delivery times
     pub frames_d: [Vec<u64>; 2],
+    /// byte offsets in the sender's direction (order among frames of one direction, also within one step):
+    /// of the opening frame, of END_STREAM per side, of every RST_STREAM per side
+    pub open_off: usize,
+    pub end_off: [Option<usize>; 2],
+    pub rst_off: [Vec<usize>; 2],
 }
 
 pub fn wire_streams(tap: &Tap) -> BTreeMap<u32, WStream> {
@@ -101,12 +106,14 @@ pub fn wire_streams(tap: &Tap) -> BTreeMap<u32, WStream> {
                 if w.opened_by.is_none() {
                     w.opened_by = Some(f.from);
                     w.open_t = f.t_w0;
+                    w.open_off = f.off0;
                 }
                 if w.headers_t_w[i].is_none() {
                     w.headers_t_w[i] = Some(f.t_w0);
                 }
                 if *end_stream && w.end[i].is_none() {
                     w.end[i] = Some((f.t_w, f.t_d));
+                    w.end_off[i] = Some(f.off0);
                 }
             }
             Frame::Push { promised, .. } => {
@@ -124,9 +131,11 @@ pub fn wire_streams(tap: &Tap) -> BTreeMap<u32, WStream> {
                 let w = m.entry(*stream).or_default();
                 if *end_stream && w.end[i].is_none() {
                     w.end[i] = Some((f.t_w, f.t_d));
+                    w.end_off[i] = Some(f.off0);
                 }
             }
             Frame::Rst { stream, code } => {
+                m.entry(*stream).or_default().rst_off[i].push(f.off0);
                 m.entry(*stream).or_default().rst[i].push((f.t_w0, f.t_d, *code));
             }
             _ => {}
@@ -571,10 +580,12 @@ pub fn check_c05(cx: &C05Ctx, out: &mut Outcome) {
                             .filter(|(_, w2)| {
                                 // certainly closed: P closed it (END_STREAM/RST written before HEADERS(s) in P's order)
                                 // and E's closing frame was written before HEADERS(s) was delivered, or either RST
-                                let p_closed = w2.end[p].map(|x| x.0 <= h_t_w).unwrap_or(false) || w2.rst[p].iter().any(|r| r.0 <= h_t_w);
+                                // (P's frames are ordered by their position in P's byte stream: the same step may carry many)
+                                let p_rst_before = w2.rst_off[p].iter().any(|o| *o < w.open_off);
+                                let p_closed = w2.end_off[p].map(|o| o < w.open_off).unwrap_or(false) || p_rst_before;
                                 let hd = w.frames_d[p].first().copied().unwrap_or(u64::MAX);
                                 let e_closed = w2.end[i].map(|x| x.0 < hd).unwrap_or(false) || w2.rst[i].iter().any(|r| r.0 < hd);
-                                let rst_any = w2.rst[p].iter().any(|r| r.0 <= h_t_w) || w2.rst[i].iter().any(|r| r.0 < hd);
+                                let rst_any = p_rst_before || w2.rst[i].iter().any(|r| r.0 < hd);
                                 !(rst_any || (p_closed && e_closed))
                             })
                             .count();
@@ -588,8 +599,8 @@ pub fn check_c05(cx: &C05Ctx, out: &mut Outcome) {
                                 .iter()
                                 .filter(|(s2, w2)| **s2 < *s && w2.opened_by == Some(e.other()))
                                 .filter(|(_, w2)| {
-                                    let ended_both = w2.end[p].map(|x| x.0 <= h_t_w).unwrap_or(false) && w2.end[i].map(|x| x.0 < hd).unwrap_or(false);
-                                    let peer_reset = w2.rst[p].iter().any(|r| r.0 <= h_t_w);
+                                    let ended_both = w2.end_off[p].map(|o| o < w.open_off).unwrap_or(false) && w2.end[i].map(|x| x.0 < hd).unwrap_or(false);
+                                    let peer_reset = w2.rst_off[p].iter().any(|o| *o < w.open_off);
                                     (ended_both || peer_reset) && !w2.rst[i].iter().any(|r| r.0 < hd) && w2.rst[i].iter().any(|r| r.0 >= hd)
                                 })
                                 .map(|(s2, _)| *s2)
